@@ -752,10 +752,15 @@ func ListIDs(c kcache.CacheReader) ([]string, []Spec, bool) {
 // harness read does it - compacting or clearing a result in place is what
 // ordinary consumers do.
 func Scribble(objs []metav1.Object) {
+	// ... and appending to one's own slice is just as legal: whatever lies
+	// behind its length must not be somebody else's data
+	_ = append(objs, scribbleMarker)
 	for i := range objs {
 		objs[i] = nil
 	}
 }
+
+var scribbleMarker = BuildMeta("pod", Spec{NS: "scribble", Name: "marker-appended-by-a-consumer", RV: "1"})
 
 // ExpectRoot returns what the controller cache must hold when it equals the server.
 func (h *H) ExpectRoot() []Spec { return FilterSpecs(h.Srv.Objects(), h.RootPred) }
